@@ -4,7 +4,7 @@ package main
 //
 // Predicates evaluated on the implementation (every library call through guard()):
 //
-//	b1 := Marshal(v, o)            if this fails the case is outside the quantifier (counted, never a verdict)
+//	b1 := Marshal(v, o)            must succeed: the generator only builds values of the property's universe   else "rt-marshal-fails"
 //	Unmarshal(b1, &v2, o)          must succeed                                   else "rt-unmarshal-rejects"
 //	b2 := Marshal(v2, o)           must succeed                                   else "rt-remarshal-fails"
 //	no omitzero/omitempty:         b2 == b1                                       else "rt-bytes-differ"
@@ -89,7 +89,7 @@ func c04OptSets() []c04OptSet {
 		{"ParseBytesWithLooseRFC4648", jsonv1.ParseBytesWithLooseRFC4648, GenFeatures{}},
 		{"ParseTimeWithLooseRFC3339", jsonv1.ParseTimeWithLooseRFC3339, GenFeatures{}},
 		{"ReportErrorsWithLegacySemantics", jsonv1.ReportErrorsWithLegacySemantics, GenFeatures{}},
-		{"StringifyWithLegacySemantics", jsonv1.StringifyWithLegacySemantics, GenFeatures{}},
+		{"StringifyWithLegacySemantics", jsonv1.StringifyWithLegacySemantics, GenFeatures{NoStringOnNestedPtr: true}},
 		{"UnmarshalArrayFromAnyLength", jsonv1.UnmarshalArrayFromAnyLength, GenFeatures{}},
 	} {
 		sets = append(sets, c04OptSet{name: "v1." + o.name, opts: []json.Options{o.f(true)}, feat: o.feat, weight: 1})
@@ -184,7 +184,10 @@ func (k *c04Case) roundTrip(c *Ctx, v reflect.Value) bool {
 		return false
 	}
 	if err != nil {
+		// Every type/value the generator builds is inside the property's universe (gen_values.go excludes the
+		// documented non-marshalable cases by construction), so a Marshal error is itself a violation.
 		c.Hit("marshal-error:" + errClass(err))
+		c.Violate("rt-marshal-fails", "Marshal(v)", nil, detail(map[string]any{"err": trunc(err.Error(), 600)}))
 		return false
 	}
 	v2, err, pn := k.unmarshal(c, "Unmarshal", b1)
@@ -270,7 +273,7 @@ func c04RandomTypes(c *Ctx) {
 				set := &sets[wheel[r.IntN(len(wheel))]]
 				f := set.feat
 				// with a visible random map order compare modulo member order (half of the time: only single-entry maps, strict comparison)
-				f.MultiEntryMaps = set.deterministic || r.IntN(2) == 0
+				f.MultiEntryMaps = set.deterministic || r.IntN(4) != 0
 				f.NoOmit = r.IntN(3) != 0 // value equality needs types without omit options: make them the majority
 				gt := GenValType(r, f)
 				if gt == nil {
@@ -279,9 +282,6 @@ func c04RandomTypes(c *Ctx) {
 				}
 				k := &c04Case{set: set, gt: gt, modOrder: !set.deterministic && f.MultiEntryMaps && (gt.HasMap || gt.HasAny)}
 				c.Hit("options:" + set.name)
-				for _, ft := range gt.Feats() {
-					c.Hit(ft)
-				}
 				if gt.Lossy {
 					c.Hit("type:has-uncompared-fields")
 				}
@@ -301,6 +301,9 @@ func c04RandomTypes(c *Ctx) {
 					if !ok && j == 1 {
 						break // this type does not marshal under this option set: do not spend more values on it
 					}
+				}
+				for _, ft := range gt.Feats() { // after the values: name plans are chosen while filling
+					c.Hit(ft)
 				}
 			}
 		}(w)
